@@ -43,7 +43,8 @@ static _Bool drive(op_merge *self, mscon *sc, unsigned maxcalls)
 
 void hb_alt(void)
 {
-  op_merge self; mscon sc; op *ops[NB] = {&g_branch_op[0], &g_branch_op[1]};
+  op_merge self; mscon sc; op *ops[NB];
+  for (unsigned i = 0; i < NB; ++i) ops[i] = &g_branch_op[i];
   self.__base0.m_upstream = &g_upstream_op; self.m_ll = 0;
   self.m_ops.data = ops; self.m_ops.len = NB; self.m_ops.cap = NB;
   for (unsigned i = 0; i < NB; ++i)
@@ -71,9 +72,37 @@ void hb_alt(void)
   __CPROVER_assert(doneB, "phase B terminates");
   for (unsigned i = 0; i < NB; ++i)
     __CPROVER_assert(count(endA, g_nlog, i, 3) == g_k[2][i], "a stack fed after an earlier exhaustion is treated like any other: every branch yields all its results for it");
-  __CPROVER_assert(g_nlog - endA == g_k[2][0] + g_k[2][1], "and nothing else is yielded");
+  __CPROVER_assert(NB != 2 || g_nlog - endA == g_k[2][0] + g_k[2][1], "and nothing else is yielded");
   for (unsigned j = 0; j < LOGMAX; ++j)
     __CPROVER_assert(j < endA || j + 1 >= g_nlog || g_log_branch[j] <= g_log_branch[j + 1], "re-fed one stack, the ALT again yields its alternatives left to right");
+}
+/* any number NB of branches (job: NB = 3), two input stacks in one feed, 0 or 1 result per branch and input */
+void hb_alt_branches(void)
+{
+  op_merge self; mscon sc; op *ops[NB];
+  self.__base0.m_upstream = &g_upstream_op; self.m_ll = 0;
+  self.m_ops.data = ops; self.m_ops.len = NB; self.m_ops.cap = NB;
+  for (unsigned i = 0; i < NB; ++i)
+    { ops[i] = &g_branch_op[i]; g_tine[i].m_merge = &self; g_tine[i].m_branch_id = i; g_pending[i] = 0; g_cur[i] = 0;
+      for (unsigned h = 0; h < NIN; ++h) { g_k[h][i] = nondet_uint(); __CPROVER_assume(g_k[h][i] <= 1); } }
+  g_merge_state = op_merge_state_ctor(NB);
+  g_feed[0] = 1; g_feed[1] = 2; g_nfeed = 2; g_fi = 0; g_nlog = 0; verif_raised = 0;
+  _Bool done = 0;
+  for (unsigned c = 0; c < 2 * NB + 1; ++c)
+    if (!done)
+      {
+        unsigned before = g_nlog;
+        sid r = op_merge_next(&self, &sc);
+        __CPROVER_assert(verif_raised == 0, "no error");
+        if (r == 0) done = 1;
+        else __CPROVER_assert(g_nlog == before + 1 && r == g_log_input[before], "each pull hands on exactly the one stack a branch just yielded");
+      }
+  __CPROVER_assert(done, "terminates");
+  for (unsigned i = 0; i < NB; ++i)
+    {
+      __CPROVER_assert(count(0, g_nlog, i, 1) == g_k[0][i], "first input: every one of the branches yields all its results, once");
+      __CPROVER_assert(count(0, g_nlog, i, 2) == g_k[1][i], "second input: every one of the branches yields all its results, once");
+    }
 }
 #ifdef VERIF_CONTROL
 void hb_alt_control(void)
